@@ -18,9 +18,12 @@ NA = {
 "C20":"Idempotence and data preservation are stated over uninterrupted sequential histories; interrupting migrations at every DDL statement would test states the statement does not quantify over.",
 }
 PENDING = {
-"C06":"Claimed in DESIGN.md; check not built yet in this commit (seeded interleaving of logical clients over a handle tree).",
 }
 CHECKS = {
+"C06": dict(cat="exploration", ref="DESIGN.md section 7, C06",
+  text="Seeded histories of up to 12 chains over a tree of reusable handles (Open, Session, WithContext, Debug, Begin, chain.Session), steps of different chains interleaved by a schedule vector, chain methods drawn swarm-style from a small per-history palette so that several chains touch the same clause of the same handle; every executed finisher (DryRun: Statement SQL+Vars; real: driver statements, bound values, rows, error) must equal the same chain replayed alone - only its own ancestry - on a fresh Open. Seeded sampling of histories.",
+  note="Trusted: a single chain is deterministic (the isolated replay is run twice and must agree with itself); intermediate chain values are used linearly; write finishers in real-mode histories go through a DryRun session.",
+  tech="deterministic simulation: seeded interleaving of logical clients over a handle tree with isolation-replay oracle"),
 "C14": dict(cat="exploration", ref="DESIGN.md section 7, C14",
   text="2..4 client tasks plus the closer goroutines gorm starts itself run 4 shared statement texts (query/exec, direct or in Begin..Commit/Rollback, one writer), Reset and Close through Config.PrepareStmt or Session{PrepareStmt:true} handles under the seeded scheduler, with planned Prepare failures and ErrBadConn bursts (thorough: simulated pool bound 1/2). Per run: no deadlock (all-waiting detection), every use returns the non-prepared rows / the injected fault / a closed-cache error explained by a Close (porcupine against an open/closed model), at most one pool-bound Prepare per text and cache generation, failed preparations not cached, every driver statement closed after the final Close, committed writer rows present; race-build runs add the race detector's verdict. Seeded sampling of schedules and fault plans.",
   note="Trusted: no parking inside database/sql (prepared executions interleave at whole-call granularity); `go stmt.Close()` goroutines of the ErrBadConn branches run outside the scheduler; the generation rule exempts transaction-bound preparations requested before a pool-bound entry existed and everything after a Close.",
